@@ -100,7 +100,7 @@ def rand_interval_entries(rng, nmax=6, hi=5.0, labels=None, allow_blank=False, t
         _, src = rand_time_source(rng)
     n = rng.randrange(0, nmax + 1)
     if rng.random() < BIG_TIER_RATE:
-        n = rng.randrange(60, 200)  # an occasional tier of realistic size (a few hundred entries)
+        n = rng.choice([rng.randrange(60, 200), rng.randrange(260, 420)])  # an occasional tier of realistic size (a few hundred entries)
     k = 2 * n
     raw = sorted({src(hi) for _ in range(k * 2 + 2)})
     pts = []
@@ -127,7 +127,7 @@ def rand_point_entries(rng, nmax=6, hi=5.0, labels=None, src=None):
         _, src = rand_time_source(rng)
     n = rng.randrange(0, nmax + 1)
     if rng.random() < BIG_TIER_RATE:
-        n = rng.randrange(60, 200)
+        n = rng.choice([rng.randrange(60, 200), rng.randrange(260, 420)])
     pts = []
     for x in sorted({src(hi) for _ in range(n)}):
         # praatio's Point equality is tolerant (1e-14 abs / 1e-9 rel): points closer than that are the
